@@ -682,7 +682,7 @@ def replay(cand):
 
 MANIFEST_ENTRY = {
     "engine": "symx+cast",
-    "technique": "write monitor inside the symbolic executors (symx/z3 for the Python sources, cast for the interpreted C wrappers): every buffer reachable from an argument is frozen and each store through any alias, view, out=, augmented assignment, byteswap(True), dtype assignment or C pointer is checked on every feasible path, with the argument's dtype class, byte order, layout and dimensionality and the path-selecting options as forked choices; candidates are replayed on real arrays of every variant comparing bytes, dtype and strides before and after",
+    "technique": "write monitor inside the symbolic executors (symx/z3 for the Python sources, cast for the interpreted C wrappers): every buffer reachable from an argument is frozen and each store through any alias, view, out=, augmented assignment, byteswap(True), dtype assignment or C pointer is checked on every feasible path, with the argument's dtype class, byte order, layout and dimensionality and the path-selecting options as forked choices; the string branch of the C++ text writer interpreted from clang's AST (castxx) with the row memory frozen; finiteness tests answer arbitrarily so that NaN/inf branches are explored for stores; candidates are replayed on real arrays of every variant (incl. views that do not own their memory, NaN/inf data) comparing bytes, dtype and strides before and after",
     "text": "On every feasible path of the listed functions (record-file writes text/binary, match/unique/rem_dup/splitarray, histogram/Binner with weights on both engines, wmom/wmedian/sigma_clip/interplin/get_stats, the coordinate conversions with their unit/stomp options, the Cosmo distance methods down to the C wrappers, the Python layers of HTM lookup/match/bincount/Matcher) and for every argument variant (f8/f4/i8, native/swapped, contiguous/strided, 0-d/1-d) no store reaches a caller-owned buffer.",
     "note": "field operations and byte-order conversions are frozen in their own checks (C07, C16), WCS under C10; the string branch of the C++ text writer (Records::WriteRows/WriteField/WriteStringAsAscii) is interpreted with the row memory frozen; the rest of records.cpp and htmc.cc are behind contracts (a store made there is not seen)",
 }
